@@ -63,6 +63,19 @@ def spec_oracle(table, n, res):
     return None
 
 
+def sim_clause(sc, gates, fix_counts, cls, labels, instrs, meas, psi0):
+    """noise-free run, fix_counts, compared with Qiskit's own little-endian probabilities of the measured qubits (classical bit k = meas[k])"""
+    import numpy as np
+    _, res, _ = sc.run_spy(cls, labels, instrs, len(labels), sc.dev_plain(len(labels)), psi0, gates=gates, shots=1)
+    ideal = sc.qiskit_marginals(labels, instrs, meas, psi0)      # key character k = bit of meas[k] (classical bit k first)
+    fc = fix_counts(dict(res), len(meas))
+    want = [format(i, "b").zfill(len(meas)) for i in range(2 ** len(meas))]
+    if list(fc) != want: return "keys are not the 2^m strings in ascending order"
+    # Qiskit prints classical bit m-1 first: its key is the reverse of the ascending-classical-bit key
+    d = max(abs(fc[k[::-1]] - ideal[k]) for k in ideal)
+    return None if d <= 1e-9 else "probabilities differ from Qiskit's by %.3g" % d
+
+
 def gen_cases(ck):
     cases = []  # (family, n, table(list of (key,value)))
     nmax_ex = 3 if ck.tier == "quick" else 4
@@ -105,6 +118,17 @@ def main(argv):
 
     if ck.replay:
         doc = json.load(open(ck.replay))["replay"]
+        if doc.get("family") == "simulator":
+            import numpy as np
+            import checks.sim_common as sc
+            from quantum_gates._gates.gates import noise_free_gates
+            if "instrs" in doc:
+                instrs = [(a, list(b), c) for a, b, c in doc["instrs"]]
+                print("replay:", doc["cls"], "measured in order", doc["meas"], "->",
+                      sim_clause(sc, noise_free_gates, fix_counts, doc["cls"], doc["labels"], instrs, doc["meas"], np.array([complex(*z) for z in doc["psi0"]])) or "holds")
+            else:
+                print("replay:", doc["why"])
+            return 0
         res = run_impl(fix_counts, [tuple(x) for x in doc["table"]], doc["n"])
         print("replay:", doc, "->", res, "oracle:", spec_oracle([tuple(x) for x in doc["table"]], doc["n"], res))
         return 0
@@ -164,6 +188,32 @@ def main(argv):
                         why = "key %s maps to %r, expected 0" % (k, v); break
         if why and oracle_fail is None:
             oracle_fail = (n, [(k, repr(v)) for k, v in t], why)
+    # third clause: a simulator result whose measurements were issued in ascending classical-bit order (any qubit order, any subset)
+    # becomes Qiskit's little-endian table.  Noise-free runs of every circuit class against Qiskit's Statevector.
+    sim_fail = None
+    try:
+        import numpy as np
+        import checks.sim_common as sc
+        from quantum_gates._gates.gates import noise_free_gates
+        nrng = np.random.default_rng(ck.seed)
+        for cls in sc.CLASSES:
+            for t in range(6 if ck.tier == "quick" else 40):
+                n = int(nrng.integers(1, 5)); labels = list(range(n))
+                body = sc.rand_circuit(nrng, labels, int(nrng.integers(2, 10)), adjacent=cls != "BinaryCircuit")
+                perm = [int(q) for q in nrng.permutation(n)][:n if t % 3 else int(nrng.integers(1, n + 1))]
+                instrs, meas = sc.add_measures(nrng, body, labels, subset=perm)
+                psi0 = nrng.normal(size=2 ** n) + 1j * nrng.normal(size=2 ** n); psi0 /= np.linalg.norm(psi0)
+                ck.count("simulator_result_to_qiskit_keys", 1, key=(cls, n, tuple(meas), repr(instrs)) if len(meas) >= 2 else None,
+                         sample={"cls": cls, "measured_in_order": meas})
+                why = sim_clause(sc, noise_free_gates, fix_counts, cls, labels, instrs, meas, psi0)
+                if why and sim_fail is None:
+                    sim_fail = {"family": "simulator", "cls": cls, "labels": labels, "instrs": [[a, list(b), c] for a, b, c in instrs], "meas": meas,
+                                "psi0": [[float(z.real), float(z.imag)] for z in psi0], "why": why}
+    except Exception as e:  # noqa
+        sim_fail = {"family": "simulator", "why": "the simulator clause could not be run: %s: %s" % (type(e).__name__, str(e)[:200])}
+    if sim_fail and not oracle_fail:
+        ck.report("oracle:simulator", "fix_counts of a simulator result is not Qiskit's little-endian table: %s (%s, qubits measured in the order %s)"
+                  % (sim_fail["why"], sim_fail.get("cls"), sim_fail.get("meas")), sim_fail)
     if oracle_fail:
         n, t, why = oracle_fail
         ck.report("oracle", "fix_counts violates its specification: %s (n=%d, table=%s)" % (why, n, t[:8]), {"n": n, "table": t, "why": why})
